@@ -322,7 +322,8 @@ FK_Fns == {"g"}
 FK_Bodies == {"f", "none"}
 FK_Disp == <<I(1), Str("x")>>
 FK_Presets == {Dv([k \in {"A", "S"} |-> IF k = "A" THEN I(9) ELSE Dv([j \in {"X"} |-> I(8)])]), Dv([k \in {"A"} |-> I(4)])}
-FK_Cbs == {"cb"}
+FK_Cbs == {"cb", "none"}      \* the callback "none" returns None: a stored None must be served like any other value
+FK_BodiesB == {"f"}
 FK_Effs == {<<>>, <<"e1">>}
 FKL_Effs == {<<>>, <<"le">>, <<"e1", "le">>}      \* "le": a LogEffect (family logeffects, C16)
 FK_Caches == {"mem", "none"}
